@@ -165,12 +165,37 @@ def worker(args):
     return stats
 
 
+def probe_known(mod, binary):
+    """For every listed (unrepaired) finding of this property: re-run its committed probe case; if it still fails as recorded, print the
+    KNOWN-FINDING line (the generators exclude that input class by construction, so the search continues behind it)."""
+    hits = []
+    eng = None
+    for f in load_known().get("findings", []):
+        if f["property"] != mod.ID or f.get("engine") != "dsched" or not f.get("probe"):
+            continue
+        if eng is None:
+            eng = Engine(binary)
+        text = "".join(l for l in open(os.path.join(VERIF, f["probe"])) if not l.startswith("#"))
+        res = eng.run(text)
+        v, _, _ = mod.judge(text, res)
+        if v and hasattr(mod, "confirm"):
+            v = mod.confirm(text, res, eng)
+        import re
+        if v and re.search(f["msg_regex"], v):
+            print("KNOWN-FINDING: property=%s %s" % (mod.ID, f["what"]))
+            hits.append(f["id"])
+    if eng:
+        eng.close()
+    return hits
+
+
 def run_property(prop_name, tier, seed):
     """Returns (exit_code, evidence_dict). Prints VIOLATION / KNOWN-FINDING lines."""
     import build as ebuild
     t0 = time.time()
     binary = ebuild.build()
     mod = importlib.import_module("props." + prop_name)
+    probe_hits = probe_known(mod, binary)
     ex = getattr(mod, "EXAMPLES", {"quick": 120, "thorough": 2500})[tier]
     wall = {"quick": 75, "thorough": 1500}[tier]
     wall = int(os.environ.get("VERIF_WALL", wall))
@@ -183,7 +208,9 @@ def run_property(prop_name, tier, seed):
     finally:
         if os.path.exists(stop_file):
             os.unlink(stop_file)
-    return aggregate(mod, tier, seed, results, time.time() - t0, binary)
+    rc, ev = aggregate(mod, tier, seed, results, time.time() - t0, binary)
+    ev["coverage"]["known_finding_probes_still_failing"] = probe_hits
+    return rc, ev
 
 
 def load_known():
